@@ -654,7 +654,7 @@ class CallMixin:
             if pn in bound:
                 b.env[pn] = self.coerce(bound[pn], ps, f"{q}.{pn}")
             elif pn in k.get("defaults", {}):
-                b.env[pn] = self.ev(parse_expr(k["defaults"][pn]), b, None)
+                b.env[pn] = self.coerce(self.ev(parse_expr(k["defaults"][pn]), b, None), ps, f"{q}.{pn} default")
             else:
                 b.env[pn] = self.opaque("dflt_" + pn, ps)
         cnt = self.call_ord.get(id(n), 0)
